@@ -1,5 +1,6 @@
 import GeoVerif.Model.Geocentric
 import GeoVerif.Spec.RealInst
+import GeoVerif.Proofs.Vermeille
 import Mathlib.Tactic.Ring
 import Mathlib.Tactic.LinearCombination
 import Mathlib.Tactic.FieldSimp
@@ -130,5 +131,207 @@ theorem local_isometry (O : Origin ℝ) (p q : ℝ × ℝ × ℝ)
   simp only [localForward]
   linear_combination ((p.1 - q.1) ^ 2) * h00 + ((p.2.1 - q.2.1) ^ 2) * h11 + ((p.2.2 - q.2.2) ^ 2) * h22
     + (2 * (p.1 - q.1) * (p.2.1 - q.2.1)) * h01 + (2 * (p.1 - q.1) * (p.2.2 - q.2.2)) * h02 + (2 * (p.2.1 - q.2.1) * (p.2.2 - q.2.2)) * h12
+
+/-! ## Vermeille's reverse conversion inverts the forward map (general Cardano branch) -/
+open GeoVerif.Vermeille
+
+theorem cbrt_real_nonneg (x : ℝ) (hx : 0 ≤ x) : (RealLike.cbrt x : ℝ) = x ^ ((1:ℝ)/3) := by
+  show (if 0 ≤ x then x ^ ((1 : ℝ) / 3) else -((-x) ^ ((1 : ℝ) / 3))) = _
+  rw [if_pos hx]
+
+theorem cbrt_cube (x : ℝ) (hx : 0 ≤ x) : (x ^ ((1:ℝ)/3)) ^ 3 = x := by
+  rw [← Real.rpow_natCast, ← Real.rpow_mul hx]; norm_num
+
+/-- Cardano branch of `vermU`: for `S > 0` and a non-negative discriminant the result is a positive root of
+`u³ − 3r u² = 2S`, and `u > 3r` -/
+theorem vermU_spec (S r : ℝ) (hS : 0 < S) (hdisc : 0 ≤ S * (2 * r ^ 3 + S)) :
+    (vermU S r) ^ 3 - 3 * r * (vermU S r) ^ 2 = 2 * S ∧ 0 < vermU S r ∧ 3 * r < vermU S r := by
+  have h3 : 0 ≤ 2 * r ^ 3 + S := by
+    by_contra hc
+    have := mul_neg_of_pos_of_neg hS (not_le.mp hc); linarith
+  have hT30 : 0 < S + r ^ 3 := by linarith
+  set D := Real.sqrt (S * (2 * r ^ 3 + S)) with hD
+  have hD0 : 0 ≤ D := Real.sqrt_nonneg _
+  have hD2 : D ^ 2 = S * (2 * r ^ 3 + S) := Real.sq_sqrt hdisc
+  have hT3 : 0 < S + r ^ 3 + D := by linarith
+  set T := (S + r ^ 3 + D) ^ ((1:ℝ)/3) with hTdef
+  have hTpos : 0 < T := Real.rpow_pos_of_pos hT3 _
+  have hTc : T ^ 3 = S + r ^ 3 + D := cbrt_cube _ hT3.le
+  have hu : vermU S r = r + (T + r ^ 2 / T) := by
+    unfold vermU
+    simp only [sq_real, sqrt_real, leb_real, ltb_real, eqb_real, lit_real, ofNat_real]
+    push_cast
+    have e1 : r * r ^ 2 = r ^ 3 := by ring
+    rw [e1]
+    have hd : decide ((0:ℝ) ≤ S * (2 * r ^ 3 + S)) = true := by simpa using hdisc
+    have hl : decide (S + r ^ 3 < (0:ℝ)) = false := by simpa using hT30.le
+    simp only [hd, hl, if_true, Bool.false_eq_true, if_false]
+    rw [← hD, cbrt_real_nonneg _ hT3.le, ← hTdef]
+    have hz : decide (T = (0:ℝ)) = false := by simpa using hTpos.ne'
+    simp only [hz, Bool.false_eq_true, if_false]
+  rw [hu]
+  have hcub := vermeille_cubic r S D T hTc hD2 hTpos.ne'
+  have hupos : 0 < r + (T + r ^ 2 / T) := by
+    by_cases hr : 0 ≤ r
+    · have : 0 ≤ r ^ 2 / T := by positivity
+      linarith
+    · have hr := not_le.mp hr
+      have h1 : T + r ^ 2 / T + 2 * r = (T + r) ^ 2 / T := by field_simp; ring
+      have h2 : 0 ≤ (T + r) ^ 2 / T := by positivity
+      linarith
+  refine ⟨hcub, hupos, ?_⟩
+  -- u²(u − 3r) = 2S > 0
+  set u := r + (T + r ^ 2 / T) with hudef
+  have : u ^ 2 * (u - 3 * r) = 2 * S := by linear_combination hcub
+  have hu2 : 0 < u ^ 2 := by positivity
+  by_contra hc
+  have hc := not_lt.mp hc
+  have : u ^ 2 * (u - 3 * r) ≤ 0 := mul_nonpos_of_nonneg_of_nonpos hu2.le (by linarith)
+  linarith
+
+/-- **Vermeille's `k`** (oblate ellipsoid, general position, Cardano branch): the computed pair is `(k, k + e²)` with
+`k > 0` the root of the quartic `p/(k + e²)² + q/k² = 1` -/
+theorem vermK_oblate_spec (a f p q : ℝ) (hf0 : 0 < f) (hf1 : f < 1) (hp : 0 < p) (hq : 0 < q)
+    (hdisc : 0 ≤ (f * (2 - f)) ^ 2 * p * q / 4 *
+      (2 * ((p + q - (f * (2 - f)) ^ 2) / 6) ^ 3 + (f * (2 - f)) ^ 2 * p * q / 4)) :
+    let E : Ell ℝ := ⟨a, f⟩
+    let kk := vermK E p q ((p + q - (f * (2 - f)) ^ 2) / 6) false
+    0 < kk.1 ∧ kk.2 = kk.1 + f * (2 - f) ∧ p / kk.2 ^ 2 + q / kk.1 ^ 2 = 1 := by
+  intro E kk
+  set e2' := f * (2 - f) with he2
+  have he2pos : 0 < e2' := by rw [he2]; nlinarith
+  set r := (p + q - e2' ^ 2) / 6 with hr
+  set S := e2' ^ 2 * p * q / 4 with hSdef
+  have hS : 0 < S := by rw [hSdef]; positivity
+  obtain ⟨hcub, hupos, hu3r⟩ := vermU_spec S r hS hdisc
+  set u := vermU S r with hu
+  have hv2pos : 0 < u ^ 2 + e2' ^ 2 * q := by positivity
+  set v := Real.sqrt (u ^ 2 + e2' ^ 2 * q) with hv
+  have hvpos : 0 < v := Real.sqrt_pos.mpr hv2pos
+  have hv2 : v ^ 2 = u ^ 2 + e2' ^ 2 * q := Real.sq_sqrt hv2pos.le
+  -- e4 (q − u)² = (e4 − 2u + 6r) v²  (Ferrari's perfect-square condition)
+  have hps : e2' ^ 2 * (q - u) ^ 2 = (e2' ^ 2 - 2 * u + 6 * r) * v ^ 2 := by
+    rw [hv2]; linear_combination 2 * hcub
+  have hlt : (u - q) ^ 2 < v ^ 2 := by
+    have h1 : (e2' ^ 2 - 2 * u + 6 * r) * v ^ 2 < e2' ^ 2 * v ^ 2 := by
+      apply mul_lt_mul_of_pos_right _ (by positivity); linarith
+    have h2 : e2' ^ 2 * (u - q) ^ 2 < e2' ^ 2 * v ^ 2 := by
+      have : (u - q) ^ 2 = (q - u) ^ 2 := by ring
+      rw [this, hps]; exact h1
+    exact lt_of_mul_lt_mul_left h2 (by positivity)
+  have huvq : 0 < u + v - q := by
+    have := abs_lt_of_sq_lt_sq hlt hvpos.le
+    have := (abs_lt.mp this).1; linarith
+  set w := e2' * (u + v - q) / (2 * v) with hw
+  have hwpos : 0 < w := by rw [hw]; positivity
+  have huv : 0 < u + v := by linarith
+  obtain ⟨hk2, hkpos⟩ := vermeille_k (u + v) w huv hwpos.le
+  set k := (u + v) / (Real.sqrt (u + v + w ^ 2) + w) with hk
+  have hkk : kk = (k, k + e2') := by
+    show vermK E p q r false = _
+    unfold vermK
+    simp only [e4a, e2a, e2, sq_real, sqrt_real, ltb_real, lit_real, ofNat_real, abs_real, Bool.false_eq_true, if_false, E]
+    push_cast
+    rw [← he2, abs_of_pos he2pos, ← hSdef, ← hu, ← hv]
+    have hul : decide (u < (0:ℝ)) = false := by simpa using hupos.le
+    simp only [hul, Bool.false_eq_true, if_false]
+    have hmax : (RealLike.max (0:ℝ) (e2' * (u + v - q) / (2 * v))) = w := by
+      show max (0:ℝ) _ = w
+      rw [← hw]; exact max_eq_right hwpos.le
+    rw [hmax]
+  rw [hkk]
+  refine ⟨hkpos, rfl, ?_⟩
+  have h4 : 2 * v * w = e2' * (u + v - q) := by rw [hw]; field_simp
+  have hcub' : u ^ 3 - 3 * ((p + q - e2' ^ 2) / 6) * u ^ 2 = e2' ^ 2 * p * q / 2 := by
+    rw [← hr]; linear_combination hcub
+  have hQ := vermeille_quartic p q e2' u v w k hcub' hv2 h4 hk2 hvpos.ne'
+  have hk2pos : 0 < k + e2' := by linarith
+  show p / (k + e2') ^ 2 + q / k ^ 2 = 1
+  field_simp
+  linear_combination -hQ
+
+/--
+**Geocentric `Reverse` inverts `Forward` on the general (Vermeille–Cardano) branch.**  Oblate ellipsoid `0 < f < 1`,
+a point off the axis and off the equatorial plane, not in the far field (`h ≤ maxrad`), non-negative discriminant
+(every point outside the evolute): the forward image of the computed `(sin φ, cos φ, sin λ, cos λ, h)` is the
+point itself.  (Trigonometric branch `disc < 0`, prolate case and the limiting branches: correspondence only.)
+-/
+theorem reverse_general_closes (a f maxrad X Y Z : ℝ) (ha : 0 < a) (hf0 : 0 < f) (hf1 : f < 1)
+    (hXY : X ≠ 0 ∨ Y ≠ 0) (hZ : Z ≠ 0)
+    (hmax : ¬ maxrad < Real.sqrt ((Real.sqrt (X ^ 2 + Y ^ 2)) ^ 2 + Z ^ 2))
+    (hdisc :
+      let p := (Real.sqrt (X ^ 2 + Y ^ 2) / a) ^ 2
+      let q := (1 - f) ^ 2 * (Z / a) ^ 2
+      0 ≤ (f * (2 - f)) ^ 2 * p * q / 4 *
+        (2 * ((p + q - (f * (2 - f)) ^ 2) / 6) ^ 3 + (f * (2 - f)) ^ 2 * p * q / 4)) :
+    let E : Ell ℝ := ⟨a, f⟩
+    let rv := reverse E maxrad X Y Z
+    forward E rv.sphi rv.cphi rv.slam rv.clam rv.h = (X, Y, Z) := by
+  intro E rv
+  have hR2 : 0 < X ^ 2 + Y ^ 2 := by
+    rcases hXY with h | h
+    · have : 0 < X ^ 2 := by positivity
+      positivity
+    · have : 0 < Y ^ 2 := by positivity
+      positivity
+  set R := Real.sqrt (X ^ 2 + Y ^ 2) with hRdef
+  have hRpos : 0 < R := Real.sqrt_pos.mpr hR2
+  have hRsq : R ^ 2 = X ^ 2 + Y ^ 2 := Real.sq_sqrt hR2.le
+  set e2' := f * (2 - f) with he2
+  have he2pos : 0 < e2' := by rw [he2]; nlinarith
+  have he2m : (1 - f) ^ 2 = 1 - e2' := by rw [he2]; ring
+  set p := (R / a) ^ 2 with hp
+  set q := (1 - f) ^ 2 * (Z / a) ^ 2 with hq
+  have hppos : 0 < p := by rw [hp]; positivity
+  have h1f : 0 < (1 - f) ^ 2 := by have : 0 < 1 - f := by linarith
+                                   positivity
+  have hqpos : 0 < q := by rw [hq]; positivity
+  obtain ⟨hk1pos, hk2eq, hquart⟩ := vermK_oblate_spec a f p q hf0 hf1 hppos hqpos hdisc
+  set kk := vermK (⟨a, f⟩ : Ell ℝ) p q ((p + q - e2' ^ 2) / 6) false with hkk
+  -- unfold `reverse` along the general branch
+  have hrv : rv = ⟨(Z / kk.1) / Real.sqrt ((Z / kk.1) ^ 2 + (R / kk.2) ^ 2),
+                   (R / kk.2) / Real.sqrt ((Z / kk.1) ^ 2 + (R / kk.2) ^ 2), Y / R, X / R,
+                   (1 - (1 - e2') / kk.1) * Real.sqrt ((kk.1 * R / kk.2) ^ 2 + Z ^ 2)⟩ := by
+    show reverse E maxrad X Y Z = _
+    unfold reverse
+    simp only [e4a, e2m, e2, sq_real, sqrt_real, hypot_real, ltb_real, leb_real, eqb_real, lit_real, ofNat_real, E]
+    push_cast
+    rw [← hRdef]
+    have c1 : decide (R = (0:ℝ)) = false := by simpa using hRpos.ne'
+    have c2 : decide (maxrad < Real.sqrt (R ^ 2 + Z ^ 2)) = false := by simpa using hmax
+    have c3 : decide ((f * (2 - f)) ^ 2 = (0:ℝ)) = false := by
+      rw [← he2]; simpa using he2pos.ne'
+    have c4 : decide (f < (0:ℝ)) = false := by simpa using hf0.le
+    simp only [c1, c2, c3, c4, Bool.false_eq_true, if_false]
+    rw [← he2, ← hp, ← hq]
+    have c5 : decide (e2' ^ 2 * q = (0:ℝ)) = false := by
+      have : e2' ^ 2 * q ≠ 0 := by positivity
+      simpa using this
+    simp only [c5, Bool.false_and, Bool.not_false, if_true]
+    rw [← hkk, he2m]
+  have hq' : (R / a) ^ 2 / (kk.1 + e2') ^ 2 + (1 - e2') * (Z / a) ^ 2 / kk.1 ^ 2 = 1 := by
+    rw [← he2m, ← hp]
+    have : (1 - f) ^ 2 * (Z / a) ^ 2 / kk.1 ^ 2 = q / kk.1 ^ 2 := by rw [hq]
+    rw [this, ← hk2eq]; exact hquart
+  have hk2pos : 0 < kk.1 + e2' := by linarith
+  obtain ⟨cX, cZ⟩ := vermeille_closure a e2' R Z kk.1 ha hk1pos hk2pos hq' (Or.inl hRpos.ne')
+  rw [hrv]
+  simp only [forward, e2, e2m, sq_real, sqrt_real, lit_real, ofNat_real, E]
+  push_cast
+  rw [← he2, he2m, hk2eq]
+  refine Prod.ext ?_ (Prod.ext ?_ ?_)
+  · show _ * (X / R) = X
+    rw [cX]; field_simp
+  · show _ * (Y / R) = Y
+    rw [cX]; field_simp
+  · exact cZ
+
+
+/-- non-vacuity of `reverse_general_closes`: a = 1, f = 1/2, the point (1, 0, 1) -/
+example : forward (⟨1, 1/2⟩ : Ell ℝ) (reverse (⟨1, 1/2⟩ : Ell ℝ) 10 1 0 1).sphi (reverse (⟨1, 1/2⟩ : Ell ℝ) 10 1 0 1).cphi
+    (reverse (⟨1, 1/2⟩ : Ell ℝ) 10 1 0 1).slam (reverse (⟨1, 1/2⟩ : Ell ℝ) 10 1 0 1).clam (reverse (⟨1, 1/2⟩ : Ell ℝ) 10 1 0 1).h = (1, 0, 1) :=
+  reverse_general_closes 1 (1/2) 10 1 0 1 (by norm_num) (by norm_num) (by norm_num) (Or.inl one_ne_zero) one_ne_zero
+    (by rw [show ((1:ℝ) ^ 2 + 0 ^ 2) = 1 by norm_num, Real.sqrt_one, not_lt, Real.sqrt_le_iff]; norm_num)
+    (by simp only []; rw [show ((1:ℝ) ^ 2 + 0 ^ 2) = 1 by norm_num, Real.sqrt_one]; norm_num)
 
 end GeoVerif.Props.C07
